@@ -179,6 +179,9 @@ def programs(thorough):
         if any(t[0] == "mid" for t in cells):
             continue
         yield [[{"row": 15, "indent": 0, "tab": 0, "italic": True, "cells": cells}]]
+    # an italic preamble address code (it has no indent of its own) followed by a tab offset: the offset counts
+    for (row, tab), cells in zip(((15, 1), (1, 2), (8, 3), (14, 2)), (pool[0], pool[1], pool[3], pool[10])):
+        yield [[{"row": row, "indent": 0, "tab": tab, "italic": True, "cells": [t for t in cells if t[0] != "mid"]}]]
     # two and three rows in one load: adjacent, with a gap, italic preamble on the second only
     for i in range(n):
         a, b, c = pool[i], pool[(i + 1) % n], pool[(i + 5) % n]
@@ -596,6 +599,10 @@ def explore_lengths(ctx, thorough):
     cells = [("txt", "X" * 28 + "caf"), ("ext", "É")]                    # exactly 32 columns
     cases.append(("pop-on, extended character", stream([[{"row": 15, "indent": 0, "tab": 0, "cells": cells}]], 1),
                   [display({"cells": cells})[0]]))
+    # over-long rows that hold percent signs (the report names them as they are)
+    for long_row in ("SALES ARE UP 50% OVER THE LAST QUARTER", "100%% %d %s SURE OF THIS VERY LONG ROW"):
+        prog = [[{"row": 14, "indent": 0, "tab": 0, "cells": [("txt", "short one")]}, {"row": 15, "indent": 0, "tab": 0, "cells": [("txt", long_row)]}]]
+        cases.append(("pop-on, an over-long row with percent signs", stream(prog, 1), ["short one", long_row]))
     # five rows, the long one last
     prog5 = [[{"row": 11 + i, "indent": 0, "tab": 0, "cells": [("txt", txt(35 if i == 4 else 10, i))]} for i in range(5)]]
     cases.append(("pop-on, five rows", stream(prog5, 1), [txt(35 if i == 4 else 10, i) for i in range(5)]))
@@ -704,6 +711,15 @@ def explore_times(ctx, thorough):
                  f"{tc(9, 0, drop)}\t" + " ".join([C.CONTROL["EDM"]] * d), ""]
         scen.append((f"the End Of Caption {len(words) + 25} frames after the line's time code", lines,
                      [[instant(1, 25, len(words), drop), instant(9, 0, 0, drop)]]))
+        # a line that holds more words than there are frames before the next line's time code (null padding after the End Of
+        # Caption): the next line's codes are still timed from THEIR line's time code
+        words = la + [C.CONTROL["EOC"]] * d + ["8080"] * 45
+        lines = ["Scenarist_SCC V1.0", "", f"{tc(1, 0, drop)}\t" + " ".join(words), "",
+                 f"{tc(2, 0, drop)}\t" + " ".join([C.CONTROL["EDM"]] * d + lb + [C.CONTROL["EOC"]] * d), "",
+                 f"{tc(5, 0, drop)}\t" + " ".join([C.CONTROL["EDM"]] * d), ""]
+        scen.append((f"a line of {len(words)} words followed by a line 30 frames later", lines,
+                     [[instant(1, 0, len(la), drop), instant(2, 0, 0, drop)],
+                      [instant(2, 0, d + len(lb), drop), instant(5, 0, 0, drop)]]))
         # a programme that runs across a full-hour mark
         lines = ["Scenarist_SCC V1.0", "", f"{tc(3598, 0, drop)}\t" + " ".join(la + [C.CONTROL["EOC"]] * d), "",
                  f"{tc(3601, 0, drop)}\t" + " ".join(lb + [C.CONTROL["EOC"]] * d), "",
